@@ -804,7 +804,7 @@ func ruleC07_6(c *Ctx, r *Rep) {
 		cal := call.Call.StaticCallee()
 		return cal != nil && cal.Name() == "Evaluate" && cal.Signature.Recv() != nil && typeIs(cal.Signature.Recv().Type(), filterPkg, "Term")
 	}
-	chainFn := func(f *ssa.Function) bool {
+	hasChainLoop := func(f *ssa.Function) bool {
 		for _, l := range loopsOf(f) {
 			for b := range l.Blocks {
 				for _, in := range b.Instrs {
@@ -815,6 +815,40 @@ func ruleC07_6(c *Ctx, r *Rep) {
 			}
 		}
 		return false
+	}
+	// locateChain: the function that holds the loop over the terms, reached from f directly or through private
+	// callees, with the parameter bindings accumulated along the way
+	var locateChain func(f *ssa.Function, env map[*ssa.Parameter]ssa.Value, depth int) (*ssa.Function, map[*ssa.Parameter]ssa.Value)
+	locateChain = func(f *ssa.Function, env map[*ssa.Parameter]ssa.Value, depth int) (*ssa.Function, map[*ssa.Parameter]ssa.Value) {
+		if hasChainLoop(f) {
+			return f, env
+		}
+		if depth >= 2 {
+			return nil, nil
+		}
+		for _, ci := range callsIn(f, false, func(cal *ssa.Function, _ ssa.CallInstruction) bool { return c.inModule(cal) && len(cal.Blocks) > 0 && c.PkgOf(cal) == "filter" }) {
+			g := ci.Common().StaticCallee()
+			ne := map[*ssa.Parameter]ssa.Value{}
+			for k, v := range env {
+				ne[k] = v
+			}
+			for i, p := range g.Params {
+				if i < len(ci.Common().Args) {
+					ne[p] = ci.Common().Args[i]
+				}
+			}
+			if lf, le := locateChain(g, ne, depth+1); lf != nil {
+				return lf, le
+			}
+		}
+		return nil, nil
+	}
+	chainFn := func(f *ssa.Function) bool {
+		if f.Name() == "Evaluate" {
+			return false // the grammar types' own Evaluate methods are not chain helpers
+		}
+		lf, _ := locateChain(f, map[*ssa.Parameter]ssa.Value{}, 0)
+		return lf != nil
 	}
 	// decidingExit: in chain function f (parameters bound by env), does some in-loop branch leave the loop exactly when
 	// the term just evaluated has the value `want`?
@@ -931,12 +965,16 @@ func ruleC07_6(c *Ctx, r *Rep) {
 					env[p] = ci.Common().Args[i]
 				}
 			}
+			loopFn, loopEnv := locateChain(cal, env, 0)
+			if loopFn == nil {
+				continue
+			}
 			if isAnd {
 				nA++
-				okChainA = decidingExit(cal, env, false)
+				okChainA = decidingExit(loopFn, loopEnv, false)
 			} else {
 				nO++
-				okChainO = decidingExit(cal, env, true)
+				okChainO = decidingExit(loopFn, loopEnv, true)
 			}
 		}
 		r.Check("C07.6", "C07.6:AND-chain", fn.Pos(), nA == 1 && okChainA, "AND: the first false term ends the chain with that value",
@@ -1046,9 +1084,45 @@ func ruleC08_1(c *Ctx, r *Rep) {
 					case *ssa.UnOp:
 						for _, st := range allocStores(x.X) {
 							if !isNilConst(st.Val) {
-								sites = append(sites, site{st.Block(), strings.TrimLeft(valKey(st.Val), "*")})
+								if _, isAddr := st.Val.(*ssa.FieldAddr); isAddr {
+									sites = append(sites, site{st.Block(), strings.TrimLeft(valKey(st.Val), "*")})
+								} else if _, isAlloc := st.Val.(*ssa.Alloc); isAlloc {
+									sites = append(sites, site{st.Block(), strings.TrimLeft(valKey(st.Val), "*")})
+								} else {
+									collect(st.Val, d+1)
+								}
 							}
 						}
+					case *ssa.Parameter:
+						// handed in by the only caller of a private helper
+						if a := uniqueCallerArg(x); a != nil {
+							collect(a, d+1)
+						} else {
+							sites = append(sites, site{m.Call.Block(), strings.TrimLeft(valKey(v), "*")})
+						}
+					case *ssa.Extract:
+						// produced by a private helper: its own non-nil results are the value sites
+						if call, ok := x.Tuple.(*ssa.Call); ok {
+							if h := call.Call.StaticCallee(); h != nil && c.inModule(h) && len(h.Blocks) > 0 && h.Object() != nil && !h.Object().Exported() {
+								for _, ret := range returnsOf(h) {
+									if x.Index < len(ret.Results) {
+										rv := retResult(ret, x.Index)
+										if isNilConst(rv) {
+											continue
+										}
+										if _, isPhi := rv.(*ssa.Phi); isPhi {
+											collect(rv, d+1)
+										} else if u, isU := rv.(*ssa.UnOp); isU && u.Op == token.MUL {
+											collect(rv, d+1)
+										} else {
+											sites = append(sites, site{ret.Block(), strings.TrimLeft(valKey(rv), "*")})
+										}
+									}
+								}
+								return
+							}
+						}
+						sites = append(sites, site{m.Call.Block(), strings.TrimLeft(valKey(v), "*")})
 					default:
 						if !isNilConst(v) {
 							sites = append(sites, site{m.Call.Block(), strings.TrimLeft(valKey(v), "*")})
